@@ -50,6 +50,7 @@ func callableFuncs(rec *cRec) []any {
 		func(a io.Reader) (int, error) { rec.note(a); return 5, cErr },
 		func(a int, b string) (string, int) { rec.note(a, b); return b, a },
 		func(a cStruct) cStruct { rec.note(a); return cStruct{a.A + 1} },
+		func(a, b int) (int, int, bool) { rec.note(a, b); return a + 10, b + 20, true },
 	}
 }
 
